@@ -223,6 +223,10 @@ where
         if w[1].1 <= w[0].1 {
             st.x("chunk-not-larger-than-predecessor", &format!("{} then {}", w[0].1, w[1].1));
         }
+        // C12: a later chunk is never smaller than twice the previous one less 16 bytes
+        if w[1].1 + 16 < 2 * w[0].1 {
+            st.x("chunk-smaller-than-twice-its-predecessor-less-16", &format!("{} then {}", w[0].1, w[1].1));
+        }
     }
     for c in &chunks {
         if c.1 % 16 != 0 {
